@@ -340,7 +340,7 @@ def stored_hash_scenarios(run, prog, rule, dags, wc):
             got = res.items[0] if isinstance(res, ListV) and res.items else None
             same = got is not None and bocrun.ckey(it, got) == bocrun.skey(roots[0])
             ref_cell = bocrun.build(it, roots[0])
-            honest = got is not None and repr(got.attrs.get('_hash')) == repr(ref_cell.attrs.get('_hash')) and repr(got.attrs.get('_depths')) == repr(ref_cell.attrs.get('_depths'))
+            honest = got is not None and repr(cm.cached(it, got, '_hash')) == repr(cm.cached(it, ref_cell, '_hash')) and repr(cm.cached(it, got, '_depths')) == repr(cm.cached(it, ref_cell, '_depths'))
             ok = same and honest
             why = f'same cells (types, data, references): {same}; hash and depth computed from the content, not taken from the stored values: {honest}'
         except RaiseEx as e:
